@@ -290,4 +290,71 @@ def sampSimFb {α} (echo : Nat → Option α) (isEcho : α → Bool) : Nat → L
       at_ tk (sampTick s).2 ++ (if s.atEnd then [] else sampSimFb echo isEcho (if delivered then k + 1 else k) q srcLive s2)
     | .err e => [(tk, .error e)]
 
+/-! ### feedback on the scheduler simulation (debounce after `fix: debounce clears its pending flag before emitting …`,
+throttle_with_mapper after the corresponding fix)
+With the flag cleared / the timestamp recorded BEFORE the downstream call, a nested `on_next` from inside the consumer
+finds the operator in the state the handler leaves, and nothing of the handler remains to run afterwards: the echo is
+simply the next item the source delivers — pushed at the FRONT of the queue. -/
+
+/-- the echoes the consumer pushes while receiving `out` (delivery counter `k`), and the new counter -/
+def echoesOf {α β} (echo : Nat → Option α) (isEcho : β → Bool) : Nat → List (Notif β) → List α × Nat
+  | k, [] => ([], k)
+  | k, .next v :: rest =>
+    match (if isEcho v then none else echo k) with
+    | some e => (e :: (echoesOf echo isEcho (k + 1) rest).1, (echoesOf echo isEcho (k + 1) rest).2)
+    | none => echoesOf echo isEcho (k + 1) rest
+  | k, _ :: _ => ([], k)
+
+def simRunFb {σ α β P} (op : SimOp σ α β P) (other : Nat → TL β) (echo : Nat → Option α) (isEcho : β → Bool) :
+    Nat → Nat → Nat → SQueue α P → σ → TL β
+  | 0, _, _, _, _ => []
+  | _ + 1, _, _, [], _ => []
+  | fuel + 1, k, clk, (due, it) :: q, s =>
+    match it with
+    | .src n =>
+      let r := op.onSrc (max clk due) s n
+      let es := echoesOf echo isEcho k r.2.1
+      at_ (max clk due) r.2.1 ++
+        (if hasTerm r.2.1 then []
+         else simRunFb op other echo isEcho fuel es.2 (max clk due)
+                (es.1.map (fun e => (max clk due, SItem.src (Notif.next e))) ++ applyEff r.2.2 q) r.1)
+    | .timer p =>
+      let r := op.onTimer (max clk due) s p
+      let es := echoesOf echo isEcho k r.2.1
+      at_ (max clk due) r.2.1 ++
+        (if r.2.2 then other (max clk due)
+         else if hasTerm r.2.1 then []
+         else simRunFb op other echo isEcho fuel es.2 (max clk due)
+                (es.1.map (fun e => (max clk due, SItem.src (Notif.next e))) ++ q) r.1)
+
+/-- an observable returned by a mapper: cold (signals relative to its subscription) or signalling inside `subscribe` -/
+inductive InnerObs where
+  | cold (tl : List (Nat × Sig))
+  | inline (sigs : List Sig)
+
+/-- throttle_with_mapper on a dynamic queue: the throttle observable of an element is scheduled when the element is
+handled (`inn c` = the observable the `c`-th mapper call returns); the consumer's echoes go to the front of the queue -/
+def twmSimFb {α} (raises : Nat → α → Option Err) (echo : Nat → Option α) (isEcho : α → Bool) (inn : Nat → InnerObs) :
+    Nat → Nat → TwmSt α → List (Nat × MEv α) → TL α
+  | 0, _, _, _ => []
+  | _ + 1, _, _, [] => []
+  | fuel + 1, k, s, (t, ev) :: rest =>
+    if s.done then [] else
+      let r := twmStep raises s ev
+      let es := echoesOf echo isEcho k r.out
+      let rest1 :=
+        match ev with
+        | .src (.next x) =>
+          (match raises s.count x with
+           | some _ => rest
+           | none =>
+             match inn s.count with
+             | .cold tl => tl.foldl (fun q m => insertEv (t + m.1, MEv.inner s.count m.2) q) rest
+             | .inline sigs => sigs.map (fun sg => (t, MEv.inner s.count sg)) ++ rest)
+        | _ => rest
+      at_ t r.out ++
+        (if hasTerm r.out then []
+         else twmSimFb raises echo isEcho inn fuel es.2 r.st
+                (es.1.map (fun e => (t, MEv.src (Notif.next e))) ++ rest1))
+
 end Timed
